@@ -26,8 +26,11 @@ RULE = ("a case is one honest history (script of F over 3-5 peers, deterministic
         "drained, FIFO) + depth-first enumeration of delivery and answer orders for small scripts; distinct = distinct "
         "(script, multiset of observed invocations with their issue/answer runs) with at least two invocations")
 PARTIAL = [
-    "C16_full (every honest history on several peers) is a Definition, not a theorem: it follows from the approximation invariant of "
-    "DESIGN appendix B, which is not proved; it is decided by exploration with the Coq-evaluated reference SeqSem.seq_eval (this check)",
+    "C16_full (every honest history on several peers, the whole fragment) is a Definition: it follows from the approximation invariant of "
+    "DESIGN appendix B, which is proved ONLY for straight-line scripts on several peers (call with literal target/service/function and literal or plain-scalar arguments, ap of a literal or scalar, seq, xor, match, mismatch, fail, null, never; model/NetLin.v): C16_step_two_data (one run on two data that both "
+    "approximate the full sequential trace), C16_net_invariant (induction over SeqLocal's honest histories: start, every delivery order, "
+    "duplication, re-delivery, delayed answers) and C16_full_linear (the invocations are a prefix of the calls of SeqSem.seq_eval, in its "
+    "order); for par, folds, new, lenses and variable targets C16_full is decided by exploration with the Coq-evaluated reference (this check)",
     "C16_local_full (single peer, the whole fragment) is a Definition; proved is C16_local_partial: straight-line scripts only "
     "(call with literal target/service/function and literal or plain-scalar arguments, ap of a literal or a plain scalar, seq, xor, "
     "match, mismatch, fail, null, never; for run1 and for the complete executor run2) -- par, folds, new and lenses are not covered "
